@@ -75,6 +75,9 @@ class SArg(Sym):
     def as_uxn(self):
         return SUxn(self._i, self._k)
 
+    def _vc_val(self):
+        return self._v  # stored as a plain Python value (a constant)
+
     def __bool__(self):
         return C.fork(sym.truthy(self._v), "truthiness of an argument value")
 
@@ -147,6 +150,13 @@ class SUxnList(Sym):
 
     def _vc_len(self):
         return SInt(self.n)
+
+    def _vc_as(self, kind):
+        r = SUxnList(self.n, self.ids, self.keys, self.name)
+        r.kind = kind
+        return r
+
+    kind = list
 
 
 class SUxnDict(Sym):
@@ -366,7 +376,7 @@ class MakeArgs:
         return "return"
 
 
-def make_args_inv(lst, upto):
+def make_args_inv(lst, upto, holder=None, what="make_args"):
     """the list of references built so far: element j is argument j itself if it is a reference, else a plain
     reference to the holder of (call site, position j) whose constant is stored in the build state"""
     st, i = C.ghost["st"], C.ghost["site"]
@@ -375,13 +385,13 @@ def make_args_inv(lst, upto):
     en, rs = st.exec_nodes, st.results
     if isinstance(lst, list):
         if lst:
-            raise ContractBindError("make_args: the list of references is expected to start empty")
+            raise ContractBindError(f"{what}: the list of references is expected to start empty")
         n_, ids, keys = z3.IntVal(0), z3.K(I, C.ghost["site"]), z3.K(I, kp_empty)
     elif isinstance(lst, SUxnList):
         n_, ids, keys = lst.n, lst.ids, lst.keys
     else:
-        raise ContractBindError("make_args: unexpected result type")
-    holder = lambda q: axn_id(i, slot_pos(q))  # noqa: E731
+        raise ContractBindError(f"{what}: unexpected result type")
+    holder = holder or (lambda q: axn_id(i, slot_pos(q)))  # noqa: E731
     is_new = lambda t: z3.Exists([j], z3.And(j >= 0, j < upto, z3.Not(a_is_uxn(j)), holder(j) == t))  # noqa: E731
     return [
         ("as_many_references_as_arguments", n_ == upto, {"C01"}),
